@@ -154,7 +154,7 @@ func TestC10Endpoints(t *testing.T) {
 				} else {
 					req.Header.Set("Authorization", "Bearer "+tok)
 				}
-				res := Do(req)
+				res := DoWith(KeepAliveClient, req)
 				if res.Err != nil {
 					c.Fatalf("C10: no answer: %v", res.Err)
 				}
